@@ -60,6 +60,8 @@ def fixtures():
                  # containers at the nesting limit, lists, definitions and footnotes of their own, other line endings, mutual inclusion
                  "deep.md": b"> > > > > > deep\n\n- a\n  - b\n    1. c\n\n[inc]: /from-include\n",
                  "crlf.md": b"# T\r\n\r\nhello\r\nworld\r\n\r\n- a\r\n- b\r\n\r\n```\r\ncode\r\n```\r\n", "cr.md": b"# T\r\rhello\r- a\r",
+                 "nav.md": b"- [Home][home]\n- > [Up][home] *x*\n\n# Nav [home]\n\ntext[^n] HTML\n\n[^n]: note [home]\n",
+                 "heads.md": b"## Inc two\n\npara\n\n### Inc three\n",
                  "cyc_a.md": b"a\n\n.. include:: cyc_b.md\n\n```{include} cyc_b.md\n```\n", "cyc_b.md": b"b\n\n.. include:: cyc_a.md\n\n```{include} cyc_a.md\n```\n"}
         for name, data in files.items():
             with open(os.path.join(d, name), "wb") as f:
